@@ -152,10 +152,11 @@ def judge_month(ctx, case, resp):
         return f
     if len(items) != 34:
         return Fail("C15/no-result", "loop over days of %d-%02d returned %d items" % (y, m, len(items)))
+    fails = []
     for d, it in zip(range(0, 34), items):
         f = judge_day(y, m, d, it, "date(%s, %d, %d)" % (num(y), m, d))
         if f:
-            return f
+            fails.append(diagnose_month(f, case))
     if len(resp) > 1:
         items, f = items_of(resp[1], "literal days of %d-%02d" % (y, m))
         if f:
@@ -163,8 +164,8 @@ def judge_month(ctx, case, resp):
         for d, it in zip((27, 28, 29, 30, 31, 32), items):
             f = judge_day(y, m, d, it, 'date("%s")' % cal.fmt_date(y, m, d))
             if f:
-                return f
-    return None
+                fails.append(diagnose_month(f, case))
+    return pick(ctx, case, fails)
 
 
 def judge_day(y, m, d, it, what):
@@ -196,8 +197,8 @@ def enum_months(ctx):
         for m in range(1, 13):
             yield {"y": y, "m": m}
     # far years: inside and at the edge of the third-party date type, and at the edge of the FEEL range
-    for y in (-999999999, -999999996, -262144, -262143, -10000, -401, -400, -100, -4, 9999, 10000, 99999, 262142, 262143, 262144,
-              999999900, 999999996, 999999999):
+    for y in (-999999999, -999999996, -999999600, -262400, -262144, -262143, -10000, -401, -400, -100, -4, 9999, 10000, 99999, 262142,
+              262143, 262144, 262400, 262500, 999999600, 999999900, 999999996, 999999999):
         for m in (1, 2, 12):
             yield {"y": y, "m": m}
 
@@ -210,8 +211,7 @@ def diagnose_month(f, case):
 
 
 def judge_month_diag(ctx, case, resp):
-    f = judge_month(ctx, case, resp)
-    return diagnose_month(f, case) if f else None
+    return judge_month(ctx, case, resp)
 
 
 # ------------------------------------------------------------------------------------------------
@@ -462,8 +462,8 @@ def judge_dts(ctx, case, resp):
             continue
         sig = "C15/datetime-wrong"
         if is_null(g):
-            if op in DT_CMP_OPS:
-                sig = "C15/operator-null/compare/dt"
+            if op in DT_CMP_OPS and isinstance(g, dict) and str(g.get("N", "")).startswith("eval_"):
+                sig = "C15/operator-null/compare/dt"          # the operator has no arm for date-times at all
             elif not all(inr[i] for i in involved):
                 sig = "C15/datetime-null-outside-chrono-range"
             elif isinstance(e, tuple) and abs(e[1]) > I64_MAX:
